@@ -44,6 +44,7 @@ MIN_REACH = {
     "array_scripts_with_workers_inside_a_batch": {"quick": 3, "thorough": 30},
     "cli_runs_with_function_in_a_module_beside_the_crop": {"quick": 2, "thorough": 15},
     "partial_state_scripts": {"quick": 12, "thorough": 120},
+    "scripts_with_set_up_code_of_several_lines": {"quick": 3, "thorough": 40},
 }
 TIME_BUDGET = {"quick": 500, "thorough": 3400}
 CASE_TIMEOUT = {"quick": 400, "thorough": 900}
@@ -109,7 +110,11 @@ def _options(rng, sch):
     if rng.random() < 0.3:
         o[rng.choice(["gpus", "constraint", "partition"])] = rng.choice([1, "fast", None, True])
     if rng.random() < 0.3:
-        o["setup"] = rng.choice(["import os", "import sys; sys.dont_write_bytecode = True", "x = {'a': 1}  # braces"])
+        o["setup"] = rng.choice(["import os", "import sys; sys.dont_write_bytecode = True", "x = {'a': 1}  # braces",
+                                 # set-up code of several lines, with blocks of its own
+                                 "import os\nimport sys",
+                                 "import os\nfor _i in range(2):\n    os.environ['VF_SETUP_%d' % _i] = '1'\n",
+                                 "def _helper():\n    return 1\n\n_helper()"])
     if rng.random() < 0.3:
         o["shell_setup"] = rng.choice(["export FOO=bar", "echo hello"])
     if rng.random() < 0.3:
@@ -212,6 +217,8 @@ def run_case(ctx, case):
     sch = case["scheduler"]
     schl = sch.lower()
     opts = _options(rng, schl)
+    if "\n" in str(opts.get("setup", "")):
+        ctx.count("scripts_with_set_up_code_of_several_lines")
     opts["output_directory"] = os.path.join(tmp, "out")
     ids = None
     kind = case["ids_kind"]
